@@ -248,6 +248,7 @@ static Plan gen_C03(uint64_t seed, Rng &r) {
         return p;
     }
     for (int i = 0; i < nn; i++) p.nodes.push_back(rnd_node(r, {GLUE_BARE, GLUE_LEGACY, GLUE_DARWIN}));
+    if (r.chance(0.05)) { if (nn < 2) { p.nodes.push_back(rnd_node(r, {GLUE_BARE})); nn = 2; } p.nodes[1].ctx_alias = (int)r.range(1, 3); p.isolate = true; } // context pointers a multiple of 4 GiB apart (separate segments, so that each interface has its own mapper)
     Mix m;
     m.discover = 30; m.hello = 10; m.reset = 8; m.emit = 2; m.query = 2; m.qlt = 2; m.probe = 2; m.flood = 0; m.raw = 0; m.stray = 3; m.stall = 0;
     int nops = (int)r.range(3, 40);
@@ -484,7 +485,7 @@ static Plan gen_C07(uint64_t seed, Rng &r) {
             int64_t again = r.chance(0.5) ? base - 1 : (r.chance(0.5) ? base - (int64_t)k : base - 1 - r.range(0, (int64_t)k - 1));
             p.ops.push_back(mk(OP_FLOOD, (uint32_t)r.range(1, 30), {1, again, 0, 0, 0}));
         }
-        p.ops.push_back(mk(OP_QUERY, (uint32_t)r.range(5, 60), {mapper, br, 0, rnd_seq(r), 20}));
+        { Op q = mk(OP_QUERY, (uint32_t)r.range(5, 60), {mapper, br, 0, rnd_seq(r), 20}); if (r.chance(0.06)) { Fault f; f.kind = F_ALLOCFAIL; f.a = 1; f.b = r.chance(0.7) ? 1 : 2; q.f.push_back(f); } p.ops.push_back(q); } // the response buffer may not be available: no answer is fine, a lying one is not
         p.ops.push_back(mk(OP_QUERY, 400, {mapper, br, 0, rnd_seq(r), 20})); // a later Query: must not repeat or invent anything
         base += 50;
     }
@@ -679,7 +680,7 @@ static Plan gen_C10(uint64_t seed, Rng &r) {
     for (int rd = 0; rd < rounds; rd++) {
         int A = (int)r.below(2), B = 1 - A;
         size_t cnt = (size_t)r.range(1, 6);
-        Op e = mk(OP_EMIT, (uint32_t)r.range(20, 200), {mapper, -1, A, rnd_seq(r), -1, 0});
+        Op e = mk(OP_EMIT, (uint32_t)r.range(20, 200), {mapper, -1, A, r.chance(0.1) ? 0 : (int64_t)rnd_seq(r), -1, 0}); // sequence number 0: an Emit that asks for no acknowledgement is an Emit all the same
         // descriptor source: A itself, or an address the mapper makes A spoof - possibly one that unrelated stations also use
         int pool = (int)r.below(5);
         Mac spoof = pool == 0 ? nm[A] : pool == 3 ? nm[B] : pool == 4 ? (r.chance(0.5) ? MAC_BCAST : MAC_ZERO) : World(p).station_mac(4 + (int)r.below(2));
@@ -975,6 +976,17 @@ static Plan gen_C14(uint64_t seed, Rng &r, uint64_t index) {
         return p;
     }
     p.family = (int)r.below(2);
+    if (r.chance(0.05)) { // a session that is never acknowledged: RepeatBand keeps sending Hellos every second while the mapper stays silent for 30 s and more
+        p.family = 3;
+        p.ops.push_back(mk(OP_A_MAP, 0, {0}));
+        p.ops.push_back(mk(OP_A_TADD, 0, {0, rnd_seq(r)}));
+        p.ops.push_back(mk(OP_A_DISCBOOK, 0, {}));
+        p.ops.push_back(mk(OP_A_INACT, 0, {}));
+        int64_t total = 0, lim = r.pickl({29000, 30000, 31000, 35000, 45000});
+        while (total < lim) { int64_t d = r.chance(0.7) ? r.range(100, 1100) : r.range(1100, 4000); p.ops.push_back(mk(OP_A_ADV, 0, {d})); p.ops.push_back(mk(OP_A_TICK, 0, {})); total += d; }
+        p.ops.push_back(mk(OP_A_ADV, 0, {r.range(1000, 3000)})); p.ops.push_back(mk(OP_A_TICK, 0, {}));
+        return p;
+    }
     int nops = (int)r.range(5, 120);
     for (int i = 0; i < nops; i++) {
         int x = (int)r.below(20);
@@ -1016,6 +1028,7 @@ static Plan gen_C15(uint64_t seed, Rng &r, uint64_t index) {
         }
         if (x < 6) { Op o = mk(OP_A_SESS, 0, {(int64_t)r.below(8)}); if (r.chance(0.05)) { Fault f; f.kind = F_ALLOCFAIL; f.a = 1; f.b = 99; o.f.push_back(f); } p.ops.push_back(o); } // the life-cycle must not depend on memory being available
         else if (x < 7 && r.chance(0.3)) p.ops.push_back(mk(OP_A_REINIT, 0, {})); // a second, third, ... automaton created later in the life of the process
+        else if (x < 7 && r.chance(0.4)) p.ops.push_back(mk(OP_A_TICK, 0, {})); // the daemon's periodic tick runs between session events
         else if (x < 9) p.ops.push_back(mk(OP_A_ADV, 0, {r.chance(0.85) ? 1000 * r.pickl({0, 0, 1, 1, 2, 3, 10}) : (r.chance(0.5) ? 1000 * big_jump(r) : 1000 * r.pickl({59, 60, 61, 119, 120, 121, 3599, 3600, 3601, 86399, 86400, 86401, 100, 1000}))}));
         else p.ops.push_back(mk(OP_A_SETSESS, 0, {(int64_t)r.below(4), r.chance(0.85) ? r.pickl({0, 1, 2, 10}) : (r.chance(0.5) ? big_jump(r) : r.pickl({59, 60, 61, 120, 3600, 86400}))}));
     }
@@ -1062,6 +1075,21 @@ static Plan gen_C17(uint64_t seed, Rng &r) {
     p.nodes.push_back(rnd_node(r, {GLUE_BARE, GLUE_LEGACY, GLUE_DARWIN}));
     if (r.chance(0.3)) p.nodes.push_back(rnd_node(r, {GLUE_BARE, GLUE_LEGACY}));
     if (r.chance(0.1)) p.nodes.push_back(rnd_node(r, {GLUE_BARE}));
+    if (r.chance(0.001)) { // three interfaces; the one created first then receives 65 5xx frames (16-bit lookup or frame counters), the others hold sessions
+        p.family = 9;
+        p.nodes.resize(2);
+        p.nodes.push_back(rnd_node(r, {GLUE_BARE}));
+        for (auto &n : p.nodes) { n.glue = GLUE_BARE; n.proc_us = 0; }
+        auto on = [](Op o, int node) { o.only = node; return o; };
+        uint16_t g = rnd_gen(r);
+        auto disc = [&](int sid, int node) { Op o = mk(OP_DISCOVER, (uint32_t)r.range(1, 10), {sid, -1, 0, g, rnd_seq(r), 1, 2, -1}); o.blob = {(uint8_t)node}; return on(o, node); };
+        for (int node = 0; node < 3; node++) p.ops.push_back(disc(node, node));
+        for (int node = 1; node < 3; node++) p.ops.push_back(on(mk(OP_PROBE, 5, {1500 + node, 1500 + node, wire::W_PROBE, 100 + node, 100 + node, 0, 0, 0}), node));
+        { Op h = mk(OP_HELLO, 5, {5, rnd_gen(r), 0, r.pickl({65534, 65535, 65536, 65537}), 0, 1}); h.only = 0; p.ops.push_back(h); } // foreign Hellos on interface 0
+        for (int node = 1; node < 3; node++) { p.ops.push_back(disc(3 + node, node)); p.ops.push_back(on(mk(OP_QUERY, 10, {node, -1, node, rnd_seq(r), 3}), node)); }
+        p.tail_ms = 100;
+        return p;
+    }
     if (r.chance(0.04)) { // one interface is re-created again and again (each time under a fresh context pointer, each time receiving a frame) while another one holds a session
         p.family = 8;
         p.nodes.resize(2);
@@ -1085,6 +1113,7 @@ static Plan gen_C17(uint64_t seed, Rng &r) {
         return p;
     }
     if (r.chance(0.06)) p.nodes[r.below(p.nodes.size())].null_ctx = true; // one interface is served under a NULL context pointer
+    else if (r.chance(0.06)) p.nodes[1 + r.below(p.nodes.size() - 1)].ctx_alias = (int)r.range(1, 3); // context pointers a multiple of 4 GiB apart
     Mix m;
     m.raw = 1; m.stray = 2; m.stall = 0; m.flood = 2; m.fetch = 2;
     int nops = (int)r.range(2, 50);
